@@ -575,6 +575,7 @@ def check_sweep(rep, tier, rng, drv):
             for nt in (0, 2, 8):
                 lines.append(f"batch {spec} {mode} 150 {nt} - proj=1")
                 lines.append(f"batch {spec} {mode} 60 {nt} - proj=2")
+            lines.append(f"batch {spec} {mode} 150 4 - proj=3")      # projection arrays given with count 0: all columns
         spec = fspec(codec, "xiLx", 1, 3, 50, seedbase + 5)
         for mode in ("fread", "mmap", "buffer"):
             for nt in (0, 4):
@@ -614,6 +615,15 @@ def check_sweep(rep, tier, rng, drv):
                 continue
             rep.violation(f"thread sweep: driver reported {o[:200]}", {"case": li})
             continue
+        base_st = kv.get("base", "").split(",")
+        if "corrupt_" not in li and not (base_st and base_st[-1] == "63" and all(x == "0" for x in base_st[:-1]) and len(base_st) >= 2):
+            rep.violation(f"{t[8]} mode, codec {CODECS[int(t[2])]}: the single-threaded reference read of a valid file does not end with "
+                          f"OK batches and END_OF_DATA (statuses {kv.get('base')}) - nothing to compare the threaded runs with",
+                          {"case": li, "impl": o[:800]})
+        if kv.get("unstable", "0/0") != "0/0":
+            rep.violation(f"{t[8]} mode, codec {CODECS[int(t[2])]}, num_threads={t[10]}: a batch that the caller still holds changed while the "
+                          f"next batch was read (batches changed: {kv.get('unstable')} in the num_threads run / the single-threaded run)",
+                          {"case": li, "impl": o[:1500]})
         if kv.get("eq") != "1":
             rep.violation(f"{t[8]} mode, codec {CODECS[int(t[2])]}, num_threads={t[10]}"
                           f"{' with delays injected at the yield hook' if t[11].startswith('jit') else ''}: "
